@@ -10,7 +10,8 @@ Braces == <<123, 125>> \* "{}"
 OptSet == {[o |-> "I", r |-> R1], [o |-> "I", r |-> Braces], [o |-> "n", k |-> 1], [o |-> "n", k |-> 2], [o |-> "L", k |-> 1], [o |-> "L", k |-> 2]}
 \* templates: initial-argument lists with zero, one or many occurrences of R / {}
 Templates == { <<>>, << <<82>> >>, << <<120>>, <<82, 45, 82>> >>, << <<123, 125>>, <<120, 82, 121>> >>, << <<97>> >>, << <<82, 82>>, <<123, 125, 123, 125>> >>,
-               << <<123, 123, 125, 125>>, <<123, 123, 125>> >> }       \* "{{}}" "{{}": R right after a partial start of R
+               << <<123, 123, 125, 125>>, <<123, 123, 125>> >>,        \* "{{}}" "{{}": R right after a partial start of R
+               [i \in 1..7 |-> <<96 + i, 82>>] }                      \* seven arguments "aR" .. "gR": R in every one of them
 LineSet == { <<97>>, <<98, 32, 99>>, <<82>>, <<>>, <<100, 32>>, <<99, 233>> }      \* the last one is not valid UTF-8
 
 VARIABLE inp
